@@ -19,7 +19,7 @@ func init() {
 			"14 payloader configurations: G711, G722, Opus, H264 +/-DisableStapA, H265 x AddDONL x SkipAggregation, VP8 without / with picture ids (fresh, and driven to the 15-bit id form), VP9 flexible / non-flexible (fixed InitialPictureIDFn), AV1",
 			"alphabet strings: every string up to 5 (quick) / 6 (thorough) bytes over an 8-symbol alphabet per codec (start-code bytes, NAL / OBU / VP9 frame header octets) for every MTU 0..12; structured corpus per codec (30-60 inputs from the reference writers: NAL sequences with 3/4-byte start codes, leading garbage, no start code, OBU streams with forbidden bit / truncated LEB128 / oversize field, valid, truncated and invalid VP9 headers, lengths around the MTU) for EVERY MTU 0..40 and {63,64,65,127,128,129,255,256,1200,65535}",
 			"histories: all sequences of up to 3 inputs from a 14-20 input sub-corpus per codec over 12 MTUs; pairs over the full corpus",
-			"long histories: all sequences of 6 calls over 4 inputs per codec; large inputs (5000, 66000 and 140000 bytes, i.e. beyond 16-bit lengths and more than 256 / 65536 fragments) for MTU {2,3,5,12,100,1200,65535}",
+			"long histories: all sequences of 6 calls over 4 inputs per codec; large inputs (5000, 66000 and 140000 bytes, i.e. beyond 16-bit lengths and more than 256 / 65536 fragments; SPS+PPS of 65531 bytes; 300 small NAL units / OBUs in one call; OBUs of 16383/16384 bytes followed by a small one) for MTU {2,3,5,12,100,1200,20000,65535}",
 			"returning no fragment (MTU too small, unparsable input) is allowed; Opus ignores the MTU by design",
 		},
 		Scenarios: []mc.Scenario{
@@ -345,6 +345,28 @@ func c08Large(family string) [][]byte {
 		}
 		out = append(out, b)
 	}
+	switch family {
+	case "h264":
+		out = append(out, ref.AnnexB([][]byte{ref.H264Unit(7, 3, 32766, 1), ref.H264Unit(8, 3, 32765, 2), ref.H264Unit(5, 3, 10, 3)}, []int{4, 4, 3}))
+		out = append(out, ref.AnnexB([][]byte{ref.H264Unit(7, 3, 300, 1), ref.H264Unit(8, 3, 6, 2), ref.H264Unit(5, 3, 10, 3)}, []int{4, 4, 3}))
+	case "h265":
+		var many [][]byte
+		var codes []int
+		for i := 0; i < 300; i++ {
+			many = append(many, ref.H265Unit(1, 0, 1, 3, byte(i)))
+			codes = append(codes, 3)
+		}
+		out = append(out, ref.AnnexB(many, codes))
+		out = append(out, ref.AnnexB([][]byte{ref.H265Unit(32, 0, 1, 300, 1), ref.H265Unit(33, 0, 1, 256, 2), ref.H265Unit(1, 0, 1, 4, 3)}, []int{4, 4, 3}))
+	case "av1":
+		out = append(out, ref.AV1Stream([]ref.OBU{{Type: 6, Payload: fill(16383, 1)}, {Type: 6, Payload: fill(3, 2)}}, false))
+		out = append(out, ref.AV1Stream([]ref.OBU{{Type: 6, Payload: fill(16384, 1)}, {Type: 6, Payload: fill(3, 2)}}, true))
+		var many []ref.OBU
+		for i := 0; i < 300; i++ {
+			many = append(many, ref.OBU{Type: 6, Payload: fill(1+i%2, byte(i))})
+		}
+		out = append(out, ref.AV1Stream(many, false))
+	}
 	c08LargeCache[family] = out
 	return out
 }
@@ -352,7 +374,7 @@ func c08Large(family string) [][]byte {
 func c08Long(c *mc.Ctx) {
 	cfg := mc.From(c, c08Configs)
 	if c.Bool() {
-		mtu := mc.From(c, []int{2, 3, 5, 12, 100, 1200, 65535})
+		mtu := mc.From(c, []int{2, 3, 5, 12, 100, 1200, 20000, 65535})
 		in := mc.From(c, c08Large(cfg.family))
 		if mtu < 12 && len(in) > 70000 {
 			return
